@@ -8,7 +8,7 @@ What is read from the source (an edit of any of these changes gen/ReachGen.v, or
   * `Broker._doCall`'s dispatch                                       -> docall_shape
   * first clid and the negation for callables (`initBroker`, `getTrackerForMyReference/Call`)  -> first_clid, callable_clid_negated
   * `ReferenceableTracker.decref` (translated function) and the increment in `send`            -> tracker_decref, tracker_send_incr
-  * `Broker.remote_decref`'s shape                                      -> decref_shape
+  * `Broker.remote_decref`: translated in full by g_reachdisp.py (gen_remote_decref); here only its signature
   * the methods of `RIBroker` (and that Broker implements it and has remote_<m> for each)        -> broker_methods
   * `RootUnslicer.open`'s handling of copyable / unknown open types     -> copyable_unknown, open_unknown
   * `Tub.getReferenceForName`, `_assignName`, `NAMEBITS`                -> name_lookup_shape, NAMEBITS
@@ -222,9 +222,24 @@ def generate():
         U("CallUnslicer.receiveChild: negative-clid branch (method name ignored) changed")
     out.append("Definition negative_clid_ignores_name : bool := true.")
     idx_neg = s2.body.index(neg[0])
-    dec = [i for i, s in enumerate(s2.body) if ast.unparse(s) == "self.methodname = six.ensure_str(token)"]
-    if len(dec) != 1 or dec[0] < idx_neg:
+    # the method name is decoded after the negative-clid branch: either bare (a UnicodeDecodeError then escapes receiveChild and
+    # Banana drops the connection) or under `try: ... except UnicodeDecodeError: raise Violation(...)` (that request fails)
+    BARE = "self.methodname = six.ensure_str(token)"
+    dec = [(i, s) for i, s in enumerate(s2.body)
+           if ast.unparse(s) == BARE or (isinstance(s, ast.Try) and [ast.unparse(x) for x in s.body] == [BARE])]
+    if len(dec) != 1 or dec[0][0] < idx_neg:
         U("CallUnslicer.receiveChild: `self.methodname = six.ensure_str(token)` after the negative-clid branch not found")
+    d_ = dec[0][1]
+    if isinstance(d_, ast.Try):
+        ok_ = (len(d_.handlers) == 1 and not d_.orelse and not d_.finalbody and d_.handlers[0].name is None
+               and d_.handlers[0].type is not None and ast.unparse(d_.handlers[0].type) in ("UnicodeDecodeError", "UnicodeError", "ValueError")
+               and len(d_.handlers[0].body) == 1 and isinstance(d_.handlers[0].body[0], ast.Raise)
+               and d_.handlers[0].body[0].exc is not None and ast.unparse(d_.handlers[0].body[0].exc).startswith("Violation("))
+        if not ok_:
+            U("CallUnslicer.receiveChild: the handler around six.ensure_str(token) is not `except UnicodeDecodeError: raise Violation(...)`")
+        out.append("Definition methodname_undecodable : refusal := RejectR.  (* not UTF-8: Violation, that request fails *)")
+    else:
+        out.append("Definition methodname_undecodable : refusal := AbortR.  (* not UTF-8: UnicodeDecodeError escapes, connection dropped *)")
     ic = [s for s in s2.body if isinstance(s, ast.If) and ast.unparse(s.test) == "self.interface"]
     enforced = False
     if len(ic) == 1:
@@ -294,22 +309,12 @@ def generate():
     frags(csl, "CallableSlicer.sliceBody", ["tracker = broker.getTrackerForMyCall(puid, self.obj)", "yield tracker.clid",
                                            "firstTime = tracker.send()", "url = tracker.getURL()"])
 
+    # Broker.remote_decref is translated statement by statement by translate/g_reachdisp.py (gen_remote_decref) and proved equal
+    # to the model's decref for all inputs (C06_translated_decref); only its existence and signature are checked here
     rd = P.find_def(bm, "Broker.remote_decref")
-    want = ["assert isinstance(clid, int)", "assert clid != 0", "tracker = self.myReferenceByCLID.get(clid, None)",
-            "if not tracker:\n    return", "done = tracker.decref(count)",
-            "if done:\n    del self.myReferenceByPUID[tracker.puid]\n    del self.myReferenceByCLID[clid]"]
-    got = [ast.unparse(s) for s in body_nodoc(rd)]
-    # (E3) one-argument get on a receiver that is provably a builtin dict
-    if len(got) > 2 and got[2] == "tracker = self.myReferenceByCLID.get(clid)":
-        if not attribute_is_always_empty_dict("myReferenceByCLID"):
-            U("Broker.remote_decref uses .get(clid) but myReferenceByCLID is not provably a builtin dict")
-        got[2] = want[2]
-    # (E2) the result of decref tested directly
-    if len(got) == 5 and got[4] == "if tracker.decref(count):\n    del self.myReferenceByPUID[tracker.puid]\n    del self.myReferenceByCLID[clid]":
-        got = got[:4] + want[4:]
-    if got != want:
-        U("Broker.remote_decref changed:\n" + "\n".join(got))
-    out.append("Definition decref_shape : bool := true.  (* assert clid != 0; .get; tracker.decref(count); delete both entries when done *)")
+    if [a.arg for a in rd.args.args] != ["self", "clid", "count"]:
+        U("Broker.remote_decref signature changed")
+    out.append("Definition decref_shape : bool := true.  (* see gen/ReachDispGen.v: gen_remote_decref *)")
     gr = P.find_def(bm, "Broker.remote_getReferenceByName")
     if [ast.unparse(s) for s in body_nodoc(gr)] != ["return self.tub.getReferenceForName(six.ensure_str(name))"]:
         U("Broker.remote_getReferenceByName changed")
@@ -403,7 +408,7 @@ def generate():
     if not isinstance(consts.get("NAMEBITS"), int):
         U("Tub.NAMEBITS is not an integer literal")
     out.append("Definition NAMEBITS : Z := %d." % consts["NAMEBITS"])
-    out.append("Inductive entropy := OsEntropy.")
+    out.append("Inductive entropy := OsEntropy | StdlibPrng.   (* os.urandom / secrets | the process-wide, predictable `random` module *)")
     out.append("Definition swissnum_source : entropy := %s.  (* the only source of a name's bits: os.urandom / secrets *)"
                % swissnum_source(pm))
     tgs = P.find_def(pm, "Tub.generateSwissnumber")
@@ -518,6 +523,8 @@ def swissnum_source(pm):
         U("generateSwissnumber: a local is not used exactly once")
     text = ast.unparse(expr)
     ok = {"base32.encode(os.urandom(bits // 8))": "OsEntropy", "base32.encode(secrets.token_bytes(bits // 8))": "OsEntropy"}
+    if text not in ok and ("random." in text or "randbytes" in text or "getrandbits" in text) and "SystemRandom" not in text:
+        return "StdlibPrng"          # C06_swissnum_bits then no longer holds: the proof breaks, the harness's attack finds the input
     if text not in ok:
         U("generateSwissnumber: the name is not base32 of os.urandom(bits // 8) / secrets.token_bytes(bits // 8) but " + text)
     # the names used must be the module-level imports, never rebound
